@@ -122,6 +122,12 @@ Theorem registered_run_and_errors :
   wget "multinet.ctrl.per_pandapipes_net" wiring = "pandapipes.control.run_control.prepare_run_ctrl" /\
   wget "multinet.ctrl.run_default_from_net_type" wiring = "yes" /\
   wget "multinet.ctrl.errors_default_from_net_type" wiring = "yes" /\
+  (* PipeflowNotConverged is in EVERY error tuple, incl. the top-level one of the multinet loop that pandapower's
+     run_time_step catches for continue_on_divergence *)
+  contains "PipeflowNotConverged" (wget "ts.errors" wiring) = true /\
+  contains "PipeflowNotConverged" (wget "ctrl.errors" wiring) = true /\
+  contains "PipeflowNotConverged" (wget "multinet.ctrl.errors" wiring) = true /\
+  contains "NetCalculationNotConverged" (wget "multinet.ctrl.errors" wiring) = true /\
   wget "multinet.ctrl.relevant_nets" wiring = "all-nets-named-by-the-controllers" /\
   wget "ts.run_loop_forwards_kwargs" wiring = "forwards-kwargs" /\
   wget "multinet.ctrl.evaluate_forwards_kwargs" wiring = "forwards-kwargs" /\
